@@ -109,14 +109,15 @@ func (cr *run) checkNumber(env envs.Environment, d decimal.Decimal, origin strin
 		}
 		back, xerr := types.ToXNumber(env, t)
 		cr.res.Count("num.text_roundtrip", 1)
+		cr.countRenderLength(len(t.Native()))
 		if xerr != nil {
 			cr.violate("roundtrip|number-text|unparseable", "the text a number renders to does not convert back to a number",
-				map[string]any{"number": in, "text": t.Native(), "error": xerr.Error()})
+				map[string]any{"number": in, "text": trunc(t.Native(), 1200), "text_length": len(t.Native()), "error": xerr.Error()})
 			return
 		}
 		if !decEqual(back.Native(), d) {
 			cr.violate("value-mismatch|number-text", "ToXNumber(ToXText(n)) is a different number",
-				map[string]any{"number": in, "text": t.Native(), "back": decCanon(back.Native())})
+				map[string]any{"number": in, "text": trunc(t.Native(), 1200), "back": trunc(decCanon(back.Native()), 1200)})
 			return
 		}
 		// Render is the same canonical form
@@ -124,11 +125,16 @@ func (cr *run) checkNumber(env envs.Environment, d decimal.Decimal, origin strin
 		cr.res.Count("num.render_roundtrip", 1)
 		if xerr != nil || !decEqual(rb.Native(), d) {
 			cr.violate("value-mismatch|number-render", "XNumber.Render() does not convert back to the same number",
-				map[string]any{"number": in, "text": n.Render()})
+				map[string]any{"number": in, "text": trunc(n.Render(), 1200)})
 		}
 	})
 
 	cr.guard("number:ToXJSON/JSONToXValue", in, func() {
+		if normExponent(d) < -jsonScaleBound {
+			// more decimal places than goflow's JSON reader accepts by design (see numbers_extreme.go)
+			cr.res.Count("num.json_not_demanded_scale_beyond_reader_bound", 1)
+			return
+		}
 		j, xerr := types.ToXJSON(n)
 		if xerr != nil {
 			cr.violate("roundtrip|number-json|render-error", "ToXJSON of a number returned an error", map[string]any{"number": in, "error": xerr.Error()})
@@ -221,7 +227,16 @@ func (cr *run) genNumbers(r *fw.Rand) (bool, map[string]any) {
 		cr.fp = append(cr.fp, "t:"+s)
 		cr.checkNumberText(env, s)
 	}
-	return nontrivial, map[string]any{"kind": "numbers", "first": first, "count": 10}
+	// the extreme class is drawn after everything else, so the everyday numbers of an index are what they always were
+	for i := 0; i < 2; i++ {
+		x := genExtremeNumber(r)
+		cr.fp = append(cr.fp, "x:"+decCanon(x.d))
+		if !smallInt(x.d) {
+			nontrivial = true
+		}
+		cr.checkExtreme(env, x)
+	}
+	return nontrivial, map[string]any{"kind": "numbers", "first": first, "count": 12}
 }
 
 func (cr *run) directedNumbers() {
